@@ -464,6 +464,32 @@ fn ephemeral_sweep(o: &mut Out, p: &Pools) {
     }
 }
 
+
+/// a spend whose conditions are 3-6 relative/absolute lock assertions with small, colliding arguments,
+/// so that contradictory combinations (before <= after) and their order of arrival matter
+pub fn lock_dense(r: &mut Rng, p: &Pools) -> Vec<SpendG> {
+    let mut s = SpendG { parent: *r.pick(&p.ids), ph: *r.pick(&p.ids), amount: 1000, conds: vec![], term: nil() };
+    let vals = [0u64, 1, 10, 50, 60, 100];
+    let k = r.range(3, 6);
+    // one family at a time (height-relative, seconds-relative, height-absolute, seconds-absolute), sometimes mixed
+    let fam: &[u8] = match r.below(5) { 0 => &[82, 86], 1 => &[80, 84], 2 => &[83, 87], 3 => &[81, 85], _ => &[80, 81, 82, 83, 84, 85, 86, 87] };
+    for _ in 0..k { let op = *r.pick(fam); s.conds.push(pair(at(&[op]), list(vec![int(*r.pick(&vals))], nil()))); }
+    vec![s]
+}
+
+/// a spend with `n_send` SEND_MESSAGE / CREATE_*_ANNOUNCEMENT and `n_recv` RECEIVE_MESSAGE / ASSERT_*_ANNOUNCEMENT
+/// conditions (mode 0: no committed end points), for the per-spend announcement budget of 1024
+pub fn announce_heavy(p: &Pools, n_a: usize, n_b: usize, op_a: u8, op_b: u8) -> Vec<SpendG> {
+    let mut s = SpendG { parent: p.ids[0], ph: p.ids[1], amount: 1, conds: vec![], term: nil() };
+    let mk = |op: u8| -> T { match op {
+        66 | 67 => pair(at(&[op]), list(vec![int(0), at(b"m")], nil())),
+        60 | 62 => pair(at(&[op]), list(vec![at(b"m")], nil())),
+        _ => pair(at(&[op]), list(vec![at(&[7u8; 32])], nil())) } };
+    for _ in 0..n_a { s.conds.push(mk(op_a)); }
+    for _ in 0..n_b { s.conds.push(mk(op_b)); }
+    vec![s]
+}
+
 pub fn run(o: &mut Out, seed: u64, thorough: bool, replay: Option<Vec<String>>) {
     if let Some(lines) = replay { for l in lines { replay_line(o, &l); } return; }
     let p = pools();
@@ -474,6 +500,18 @@ pub fn run(o: &mut Out, seed: u64, thorough: bool, replay: Option<Vec<String>>) 
     sweep(o, &p, thorough);
     ephemeral_sweep(o, &p);
     let mut r = Rng::new(seed);
+    // lock-dense spends (order of arrival of contradictory lock pairs) and the announcement budget around 1024
+    for _ in 0..(if thorough { 20_000 } else { 2_000 }) {
+        let sp = lock_dense(&mut r, &p);
+        case(o, r.chance(1, 2), rand_flags(&mut r), 11_000_000_000, 0, &plain_tree(&sp));
+    }
+    for (na, nb) in [(512usize, 512usize), (513, 512), (512, 513), (1024, 0), (1025, 0), (0, 1024), (0, 1025), (1025, 1025)] {
+        for (oa, ob) in [(66u8, 67u8), (60, 61), (62, 63), (66, 61), (60, 67)] {
+            for fl in [F_DONT_VALIDATE, F_DONT_VALIDATE | F_STRICT, F_DONT_VALIDATE | F_COST, F_DONT_VALIDATE | F_COST | F_STRICT, F_DONT_VALIDATE | F_NO_UNKNOWN | F_STRICT | F_LIMIT] {
+                case(o, false, fl, 11_000_000_000, 0, &plain_tree(&announce_heavy(&p, na, nb, oa, ob)));
+            }
+        }
+    }
     let n = if thorough { 400_000 } else { 30_000 };
     for _ in 0..n {
         let sp = gen_bundle(&mut r, &p);
@@ -617,6 +655,25 @@ pub fn run_c06(o: &mut Out, seed: u64, thorough: bool, replay: Option<Vec<String
     }
     let p = pools();
     let mut r = Rng::new(seed ^ 0xc06);
+    // engineered: lock-dense spends under every rotation / reversal of their conditions
+    for _ in 0..(if thorough { 10_000 } else { 1_000 }) {
+        let sp = lock_dense(&mut r, &p);
+        let t = plain_tree(&sp);
+        let flags = F_DONT_VALIDATE | (if r.chance(1, 2) { F_COST } else { 0 });
+        let mempool = r.chance(1, 2);
+        let k = sp[0].conds.len();
+        for rot in 1..k { let mut sp2 = sp.clone(); sp2[0].conds.rotate_left(rot); c06_pair(o, "perm", mempool, flags, &t, flags, &plain_tree(&sp2)); }
+        let mut sp2 = sp.clone(); sp2[0].conds.reverse(); c06_pair(o, "perm", mempool, flags, &t, flags, &plain_tree(&sp2));
+    }
+    // engineered: the announcement budget around 1024 under each strictness subset
+    for (na, nb) in [(512usize, 512usize), (513, 512), (512, 513), (1025, 1025), (0, 1025)] {
+        for (oa, ob) in [(66u8, 67u8), (60, 61), (62, 63)] {
+            let t = plain_tree(&announce_heavy(&p, na, nb, oa, ob));
+            for base in [F_DONT_VALIDATE, F_DONT_VALIDATE | F_COST] { for s in [F_STRICT, F_NO_UNKNOWN, F_LIMIT, F_STRICT | F_NO_UNKNOWN | F_LIMIT] {
+                c06_pair(o, "strict", false, base | s, &t, base, &t);
+            }}
+        }
+    }
     let n = if thorough { 150_000 } else { 12_000 };
     for _ in 0..n {
         let sp = gen_bundle(&mut r, &p);
